@@ -237,9 +237,20 @@ def check_eigh(ctx, rng, sym, cfg):
         ctx.violation('eigh (%s) on a Hermitian operator raised %s: %s' % (style, type(e).__name__, str(e)[:150]), desc)
     # eig of a generic (non-hermitian) matrix: bi-orthonormal pairs and reconstruction
     g = yastn.rand(cfg, legs=legs + [l.conj() for l in legs], dtype='float64')
+    degenerate = rng.random() < 0.35
+    if degenerate and h.size > 0:
+        # a diagonalisable operator with REPEATED eigenvalues inside its sectors: same eigenvectors as h, eigenvalues rounded to {1, 2, 3}
+        try:
+            hm = h.fuse_legs(axes=(tuple(range(nl)), tuple(range(nl, 2 * nl))), mode='hard')
+            Sd, Ud = yastn.eigh(hm, axes=(0, 1))
+            Sd._data = np.round(np.real(Sd._data)) % 3 + 1.0
+            g = yastn.tensordot(yastn.tensordot(Ud, Sd, axes=(1, 0)), Ud.conj(), axes=(1, 1)).unfuse_legs(axes=(0, 1))
+            ctx.count('eig:degenerate-spectrum')
+        except yastn.YastnError:
+            degenerate = False
     x, rows, cols, style = _present(rng, g, nl)
     nr, nc = len(_astuple(rows)), len(_astuple(cols))
-    desc = dict(kind='eig', sym=sym, sU=sU, style=style, rows=rows, cols=cols, s=list(g.get_signature()))
+    desc = dict(kind='eig', sym=sym, sU=sU, style=style, rows=rows, cols=cols, s=list(g.get_signature()), degenerate=degenerate)
     ctx.case(desc, nontrivial=g.size > 0)
     try:
         Ug, Sg, Vg = yastn.eig(x, axes=(rows, cols), sU=sU)
